@@ -29,7 +29,7 @@ class Prop(C02):
 
     def gen_cases(self, rng, tier):
         n = 700 if tier == 'quick' else 7000
-        cases = E.all_enumerated('c06') + (E.state_x_op(pairs=True) if tier != 'quick' else [])
+        cases = E.all_enumerated('c06', tier) + (E.state_x_op(pairs=True) if tier != 'quick' else [])
         for k in range(n):
             if k % 6 == 3:
                 # deferral-heavy histories: a start-up deferral during which paths come, go, lose their next hop
